@@ -429,7 +429,7 @@ func checkDiagnostics(c *Ctx, f *FC) {
 		r.Undecided("C16.c", "transpileOne", "definition", "fc", "anchor function not found")
 	}
 	c.expectNF(f, "C16.c", "OnParseError", []string{
-		`if((recover() != nil), seq[fmt.Printf("%s: %s\n", p0, recover()); os.Exit(<_>)], seq[])`,
+		`if((recover() != nil), seq[fmt.Printf(<str>, p0, recover()); os.Exit(<_>)], seq[])`,
 		`if((recover() != nil), seq[fmt.Println(<_>); os.Exit(<_>)], seq[])`,
 	}, "the recovered branch prints the diagnostic and exits")
 	// recover callers, os.Exit arguments, go statements
